@@ -46,7 +46,15 @@ func registry() map[string]*propSpec {
 		}, QuickRuns: 240000, ThorRuns: 24000000,
 			Rule: "each run = 1-3 episodes on one Decoder (Reset between): generated/mutated JSON stream x option set x program over ReadToken/ReadValue/SkipValue/PeekKind x read schedule (1-byte, cuts, random sizes, empty reads, data+EOF, bufio, bytes.Buffer) x transient read faults x optional hand-off; compared call by call with the same program on the whole slice. distinct = distinct hash of (reader kind, buffer-capacity class, cut positions by lexeme class, fault counts, op 3-grams, outcome); non-trivial = a short/empty/faulty read, Reset or hand-off landed inside the run.",
 			Real: realAll, Stub: stubIO},
-		"C16": {Scenario: "dec", Make: func() scen.Scenario { return &scen.Dec{Mode: "c16"} }, QuickRuns: 200000, ThorRuns: 20000000,
+		"C07": {Scenario: "enc", Make: func() scen.Scenario { return &scen.Enc{Mode: "c07"} }, QuickRuns: 200000, ThorRuns: 20000000,
+			Rule: "each run = a grammatical program of WriteToken/WriteValue calls derived from generated JSON texts (sizes straddling the 64..4096-byte buffer thresholds) x option set x writer kind x write-fault script (short writes, error after full write, zero-progress error, disk full at byte k; call-indexed and offset-keyed); compared call by call with the fault-free twin; at the end faults stop, containers are closed and a sentinel is written: the writer must hold exactly the fault-free bytes. distinct = hash of (fault counts by kind, largest write, output size class, number of calls, options); non-trivial = at least one write fault fired or the bytes.Buffer path was taken.",
+			Real: realAll, Stub: stubIO},
+		"C06": {Scenario: "enc", Make: func() scen.Scenario { return &scen.Enc{Mode: "c06"} }, QuickRuns: 200000, ThorRuns: 20000000,
+			Rule: "each run = a sequence of WriteToken/WriteValue calls drawn legal with p=0.7 given the reference push-down model (all token kinds, ill-formed strings, NaN/Inf, zero token, raw values valid/truncated/duplicate-bearing/garbage, deep mode 9998..10001) x option set; every call's verdict vs the documented grammar, observers after every call vs the model, rejected calls must not move observers, twin run with the rejected calls removed must match, delivered bytes at depth 0 vs the reference serializer. distinct = hash of (call 2-grams, number of rejected calls, final depth, options); non-trivial = at least one rejected call.",
+			Real: realAll, Stub: stubIO},
+		"C16": {Scenario: "dec+enc", Make: func() scen.Scenario {
+			return &scen.Multi{Parts: []scen.Part{{W: 3, S: &scen.Dec{Mode: "c16"}}, {W: 1, S: &scen.Enc{Mode: "c16"}}}}
+		}, QuickRuns: 200000, ThorRuns: 20000000,
 			Rule: "dec scenario with the independent reference recognizer armed: observers after every call vs reference push-down model; rejected inputs vs the offset/pointer relation. distinct as for C05; non-trivial = chunked read schedule landed inside the run.",
 			Real: realAll, Stub: stubIO},
 		"C01": {Scenario: "dec", Make: func() scen.Scenario { return &scen.Dec{Mode: "c01"} }, QuickRuns: 200000, ThorRuns: 20000000,
@@ -245,6 +253,7 @@ func cmdWorker(args []string) int {
 	fs.Parse(args)
 	runtime.GOMAXPROCS(1)
 	debug.SetGCPercent(-1)
+	debug.SetMemoryLimit(6 << 30) // safety net only; never reached by a well-behaved run
 	loadKnown()
 	spec := registry()[*prop]
 	if spec == nil {
@@ -272,8 +281,8 @@ func workerLoop(spec *propSpec, prop, tier string, seed uint64, w, first, runs i
 	nsigs := map[uint64]struct{}{}
 	reported := map[string]bool{}
 	for r := first; r < first+runs; r++ {
-		if r%256 == 255 {
-			runtime.GC()
+		if r%64 == 63 {
+			runtime.GC() // memory hygiene at a fixed run index (GC is otherwise off)
 		}
 		rs := runSeed(seed, w, r)
 		tape := core.NewTape(rs)
